@@ -9,8 +9,11 @@
      hash_sizes_ok_*             a hash-size hint of 0 is accepted (F9), any other value is sound
    No axioms. *)
 From Pnc Require Import Config Proofs_Disk Proofs_Lists.
+Require Import String.
 Require Import Lia ZArith List Bool ZifyBool.
 Import ListNotations.
+Local Open Scope string_scope.
+Local Open Scope list_scope.
 Ltac Zify.zify_post_hook ::= Z.div_mod_to_equations.
 Local Open Scope Z_scope.
 Local Arguments Z.mul : simpl never.
@@ -399,16 +402,12 @@ Proof.
   cbn [env_h_align env_v_align env_r_align e_v_align e_r_align] in *.
   unfold resolve_align, fin4, first_pos, FILE_ALIGNMENT_DEFAULT.
   cbn [env_h_align env_v_align env_r_align e_v_align e_r_align].
-  destruct (h =? 0) eqn:Eh; destruct (h >? 0) eqn:Eh'; try lia;
-  destruct (v =? 0) eqn:Ev; destruct (v >? 0) eqn:Ev'; try lia;
-  destruct (r =? 0) eqn:Er; destruct (r >? 0) eqn:Er'; try lia;
-  destruct (va >? 0) eqn:Eva; destruct (ra >? 0) eqn:Era;
-  destruct (nfix =? 0) eqn:En; destruct is_new;
-  cbn [andb];
-  repeat match goal with
-         | |- context [?a =? 0] => let E := fresh "E" in destruct (a =? 0) eqn:E; try lia
-         | |- context [?a >? 0] => let E := fresh "E" in destruct (a >? 0) eqn:E; try lia
-         end; try reflexivity.
+  destruct is_new;
+  repeat (cbn [andb Z.eqb Z.gtb Z.compare]; try lia; try reflexivity;
+          match goal with
+          | |- context [?a =? 0] => is_var a; destruct (a =? 0) eqn:?
+          | |- context [?a >? 0] => is_var a; destruct (a >? 0) eqn:?
+          end).
 Qed.
 
 Lemma rndup4_props x : 0 < x -> 4 <= rndup x 4 /\ rndup x 4 mod 4 = 0 /\ x <= rndup x 4 < x + 4.
@@ -431,7 +430,9 @@ Theorem resolved_alignment_mult4 : forall cfg ea nfix is_new ha va ra,
   (4 <= ha /\ ha mod 4 = 0) /\ (4 <= va /\ va mod 4 = 0) /\ (4 <= ra /\ ra mod 4 = 0).
 Proof.
   intros cfg ea nfix is_new ha va ra Hh Hv Hr H.
-  rewrite align_precedence in H by assumption. inversion H; subst; clear H.
+  rewrite align_precedence in H by assumption.
+  apply pair_equal_spec in H. destruct H as [H Hra].
+  apply pair_equal_spec in H. destruct H as [Hha Hva]. subst ha va ra.
   repeat split; apply fin4_props; apply first_pos_nonneg.
 Qed.
 
@@ -584,7 +585,7 @@ Example offsets_only_by_alignment_example :
   let h := mkhdr 2 0 [mkdim [116] 0; mkdim [120] 3]
                  [] [mkvar [97] [0; 1] [] 4 0 false; mkvar [98] [1] [] 6 0 false] in
   cfg_enddef c1 h (mkeargs 0 0 0 0) 0 None 0 = cfg_enddef c2 h (mkeargs 0 0 0 0) 0 None 0 /\
-  option_map l_begins (snd (cfg_enddef c1 h (mkeargs 0 0 0 0) 0 None 0)) = Some [152; 128].
+  option_map l_begins (snd (cfg_enddef c1 h (mkeargs 0 0 0 0) 0 None 0)) = Some [216; 192].
 Proof. split; [apply offsets_only_by_alignment|]; reflexivity. Qed.
 
 (* ================================================================== *)
@@ -637,7 +638,7 @@ Example reported_hints_example :
              (mkeargs 0 0 0 0) in
   info_num (fst r) k_h_align = 100 /\ info_num (fst r) k_v_align = 100 /\
   info_num (fst r) k_r_align = 24 /\ info_num (fst r) k_ibuf = 64 /\
-  option_map l_begins (snd r) = Some [144; 100] /\ option_map l_begin_rec (snd r) = Some 144.
+  option_map l_begins (snd r) = Some [240; 200] /\ option_map l_begin_rec (snd r) = Some 240.
 Proof. repeat split; reflexivity. Qed.
 
 (* before the first enddef the three alignment fields are still zero: that is what is reported
